@@ -497,6 +497,13 @@ func c19Range(p *Program, r *Report, fn *ssa.Function) {
 			if !ok {
 				continue
 			}
+			if bo.Y == ssa.Value(ind) && bo.X != ssa.Value(ind) {
+				// stop > i is i < stop
+				mirror := map[token.Token]token.Token{token.LSS: token.GTR, token.GTR: token.LSS, token.LEQ: token.GEQ, token.GEQ: token.LEQ}
+				if op, ok := mirror[bo.Op]; ok {
+					bo = &ssa.BinOp{Op: op, X: bo.Y, Y: bo.X}
+				}
+			}
 			switch {
 			case bo.X == ssa.Value(ind) && (bo.Op == token.LSS || bo.Op == token.GTR || bo.Op == token.LEQ || bo.Op == token.GEQ):
 				cmps = append(cmps, "i"+bo.Op.String()+"stop")
